@@ -299,3 +299,28 @@ def typed_content_words(data, L, cfg, enc):
                         yield 'typed:DE%d:=%r' % (bit, word[:12]), data[:a] + variant + data[end:]
             elif len(raw) < 10 ** w:
                 yield 'typed:DE%d:=%r' % (bit, word[:12]), data[:a] + ('%0*d' % (w, len(raw))).encode(enc) + raw + data[end:]
+
+
+ICC_TAILS = [bytes.fromhex(h) for h in ('9f', '5f', '9f81', '5fff', '9f8182', '9fffffff', '1f', '1f81', '1f8180', 'df81', 'ff', 'ffff', '9f02',
+                                        '9f0281', '9f02ff', '8281', '82ff', '00', '0000', '9f00', '5f2a', '5f2a02', '5f2a0200')]
+
+
+def icc_tails(data, L, cfg, enc):
+    """
+    The ICC element cut after each of its TLVs and continued with a crafted ending: a tag prefix with nothing behind it,
+    multi-byte tag markers running to the end of the element, a length byte larger than what is left.  The LLVAR/LLLVAR
+    prefix is rewritten so that the message stays well framed and the ending reaches the TLV walker.
+    """
+    for bit, a, end in L.fields:
+        c = cfg[str(bit)]
+        if c.get('field_processor') != 'ICC' or c['field_type'] == 'FIXED':
+            continue
+        w = 2 if c['field_type'] == 'LLVAR' else 3
+        body = data[a + w:end]
+        cuts = sorted({0, len(body)} | {o - (a + w) for (b2, o, what) in L.icc if b2 == bit and what == 'tag' and o >= a + w})
+        for cut in cuts:
+            for tail in ICC_TAILS:
+                new = body[:cut] + tail
+                if len(new) >= 10 ** w:
+                    continue
+                yield 'icc_tail:DE%d@%d+%s' % (bit, cut, tail.hex()), data[:a] + ('%0*d' % (w, len(new))).encode(enc) + new + data[end:]
